@@ -59,10 +59,11 @@ Inductive xdesc :=
 | DTtl (f mn mx : N)
 | DForward (u : N)
 | DDropResp
+| DRendezvous                                   (* harness: overlapping queries meet here; no effect on the context *)
 | DFallback (primary secondary : N) (standby : bool).   (* Args: sequence names, always_standby *)
 
 Inductive wdesc :=
-| DCache (inst : N)
+| DCache (inst lazy : N)                          (* lazy_cache_ttl *)
 | DRedirect (t : list (bytes * bytes))            (* rules "pattern target" *)
 | DEcs (fwd send : bool) (preset : option addr) (m4 m6 : N)   (* Args as given to NewHandler *)
 | DFwdOpt (codes : list N)
@@ -103,7 +104,17 @@ Inductive case :=
       handler behind a loopback HTTP server by GET / POST — and the reply bytes
       that came back are re-parsed ([None]: nothing within the waiting time /
       connection closed / HTTP error). *)
+  (** A program with a lazy cache, run on steps: [LQ] one query (the lazy
+      update it may start is joined), with the message the first cache then
+      holds under the query's key; [LExpire]: every stored message expires
+      (VerifC10Backdate by an hour), the entries are retained; [LPair a b]: two
+      queries whose Handle calls overlap — [a] passes the cache first, both
+      wait behind it until both are there, the upstreams are held until both
+      replies are out (so the lazy update [a] started is still in flight when
+      [b] hits); the upstream messages of both are listed with [a]. *)
+| CLazy (xs : list xdesc) (ws : list wdesc) (scripts : list (list rtmpl)) (prog : list tseq) (steps : list lstep)
 | CNet (xs : list xdesc) (ws : list wdesc) (scripts : list (list rtmpl)) (prog : list tseq) (ns : list nobs)
+with lstep := LQ (o : qobs) (stored : option msg) | LExpire | LPair (a b : qobs) (stored : option msg)
 with nobs := NObs (tr : N) (q : msg) (reply : option msg) (rlen : N)
 with cobs := CObs (q : msg) (co : option opt) (r : option msg) (ro uo : option opt).
 
@@ -148,6 +159,7 @@ Definition xplugin_of (reg : registry) (d : xdesc) : xplugin :=
   | DTtl f mn mx => XTtl f mn mx
   | DForward u => XForward u
   | DDropResp => XDropResp
+  | DRendezvous => XTtl 0 0 0
   | DFallback p s standby =>
     match Sequence.lookup reg p, Sequence.lookup reg s with
     | Some rp, Some rs => XFallback rp rs standby
@@ -157,7 +169,7 @@ Definition xplugin_of (reg : registry) (d : xdesc) : xplugin :=
 
 Definition wplugin_of (d : wdesc) : wplugin :=
   match d with
-  | DCache i => WCache i
+  | DCache i lazy => WCache i lazy
   | DRedirect t => WRedirect (full_match (map (fun e => (fst e, fqdn (snd e))) t))
   | DEcs fwd send preset m4 m6 =>
     match new_ecs fwd send preset m4 m6 with
@@ -291,6 +303,50 @@ Fixpoint agree_queries (conc : bool) (ent : state -> state * option N) (w : worl
 
 Definition b2N (b : bool) : N := if b then 1 else 0.
 
+(** lazy-cache steps *)
+Definition cache_insts (ws : list wdesc) : list N :=
+  flat_map (fun d => match d with DCache i _ => [i] | _ => [] end) ws.
+
+(** the message the first cache holds under the key of [q] *)
+Definition stored_under (ws : list wdesc) (w : world) (q : msg) : option msg :=
+  match cache_insts ws, msg_key (c_query (new_context q false None)) with
+  | i :: _, Some key => lookup key (w_store w i)
+  | _, _ => None
+  end.
+
+Definition one_query (ent : state -> state * option N) (w0 : world) (o : qobs) : world * bool :=
+  match o with
+  | QObs q udp ca seen chain reply rlen =>
+    let '(w1, r0) := handle jtruncate jpacks ent w0 q udp ca in
+    let chain_ok :=
+      if valid_query q then
+        let '((c, _), err) := ent (new_context q udp ca, w0) in chain_eqb (chain_result_of c err) chain
+      else match chain with ONone => true | _ => false end in
+    (w1, chain_ok && reply_agrees udp (valid_udp_size (client_opt q)) r0 reply rlen)
+  end.
+
+Definition seen_of (o : qobs) : list (N * msg) := match o with QObs _ _ _ seen _ _ _ => seen end.
+Definition query_of (o : qobs) : msg := match o with QObs q _ _ _ _ _ _ => q end.
+
+Fixpoint agree_steps (ws : list wdesc) (ent : state -> state * option N) (w : world) (steps : list lstep) : bool :=
+  match steps with
+  | [] => true
+  | LQ o stored :: t =>
+    let '(w1, ok) := one_query ent (clear_log w) o in
+    ok && is_perm (w_log w1) (seen_of o)
+    && option_eqb msg_eqb (stored_under ws w1 (query_of o)) stored
+    && agree_steps ws ent w1 t
+  | LExpire :: t => agree_steps ws ent (expire_all w (cache_insts ws)) t
+  | LPair a b stored :: t =>
+    let '(w1, ok1) := one_query ent (clear_log w) a in
+    (* the lazy update [a] started is in flight while [b] is handled *)
+    let '(w2, ok2) := one_query ent (set_sf w1 true) b in
+    let w2 := set_sf w2 false in
+    ok1 && ok2 && is_perm (w_log w2) (seen_of a ++ seen_of b)
+    && option_eqb msg_eqb (stored_under ws w2 (query_of a)) stored
+    && agree_steps ws ent w2 t
+  end.
+
 Definition all_rrs (m : msg) : list rr := m_answer m ++ m_ns m ++ m_extra m.
 Definition ttl_of (r : rr) : option N := match r with RR _ _ _ t _ => Some t | OPT _ => None end.
 
@@ -345,6 +401,11 @@ Definition agree (c : case) : bool :=
     end
   | CFun op arg m out aux =>
     let '(o, a) := fun_model op arg m in msg_eqb o out && (a =? aux)
+  | CLazy xs ws scripts prog steps =>
+    match build_prog xs ws prog with
+    | Some (reg, rs) => agree_steps ws (jentry xs ws scripts reg rs) empty_world steps
+    | None => false
+    end
   | CNet xs ws scripts prog ns =>
     (* the transport is transparent: Handle on the unpacked query, FromUDP for transport 0 *)
     match build_prog xs ws prog with
@@ -378,25 +439,34 @@ Definition forwards_code (ws : list wdesc) (code : N) : bool :=
                     | DEcs fwd _ _ _ _ => fwd && (code =? ecs_code)
                     | _ => false
                     end) ws.
-(** A plugin that adds a client-subnet option of its own. *)
-Definition makes_ecs (ws : list wdesc) : bool :=
-  existsb (fun d => match d with
-                    | DEcs _ send preset _ _ => send || match preset with Some _ => true | None => false end
-                    | _ => false
-                    end) ws.
+(** The client-subnet options the ecs_handlers of the chain are configured to
+    make themselves: from their preset address, or (send) from the client's
+    address [ca]; mask4 / mask6 default to 24 / 48. *)
+Definition subnet_option (a : addr) (m4 m6 : N) : eopt :=
+  let m := if fst a then (if m6 =? 0 then 48 else m6) else (if m4 =? 0 then 24 else m4) in
+  (ecs_code, ((((if fst a then 2 else 1) * 256 + m) * 256 + 0) * 4294967296) + snd a).
+Definition made_ecs (ws : list wdesc) (ca : option addr) : list eopt :=
+  flat_map (fun d => match d with
+                     | DEcs _ send preset m4 m6 =>
+                       match preset with Some a => [subnet_option a m4 m6] | None => [] end
+                       ++ match send, ca with true, Some a => [subnet_option a m4 m6] | _, _ => [] end
+                     | _ => []
+                     end) ws.
 
 (** The message an upstream received: exactly one OPT, in the additional
     section, fresh (size edns0Size, DO clear, version 0); every option is a
-    client option forwarded by a plugin configured for its code, or a
-    client-subnet option made by an ecs_handler. *)
-Definition upstream_msg_ok (ws : list wdesc) (q : msg) (m : msg) : bool :=
+    client option that a plugin of the chain is configured to forward
+    (forward_edns0opt: its listed codes; ecs_handler: the client's subnet only
+    with forward: true), or exactly a client-subnet option an ecs_handler is
+    configured to make (preset / send). *)
+Definition upstream_msg_ok (ws : list wdesc) (q : msg) (ca : option addr) (m : msg) : bool :=
   no_opt (m_answer m) && no_opt (m_ns m)
   && match opts_of (m_extra m) with
      | [o] =>
        (o_udp o =? edns0_size) && negb (o_do o) && (o_ver o =? 0)
        && forallb (fun e =>
                      (mem_eopt e (opts_client q) && forwards_code ws (fst e))
-                     || ((fst e =? ecs_code) && makes_ecs ws)) (o_opts o)
+                     || mem_eopt e (made_ecs ws ca)) (o_opts o)
      | _ => false
      end.
 
@@ -441,7 +511,7 @@ Definition chain_ok (c : chain_obs) : bool :=
 Definition spec_query (ws : list wdesc) (scripts : list (list rtmpl)) (o : qobs) : bool :=
   match o with
   | QObs q udp ca seen chain reply rlen =>
-    forallb (fun s => upstream_msg_ok ws q (snd s)) seen
+    forallb (fun s => upstream_msg_ok ws q ca (snd s)) seen
     && chain_ok chain
     && match reply with
        | Some r => reply_opt_ok ws scripts seen q r
@@ -480,10 +550,21 @@ Definition spec_fun (op : N) (m out : msg) (aux : N) : bool :=
     && (aux =? b2N (negb (no_opt (m_extra m))))
   end.
 
+Definition stored_ok (stored : option msg) : bool :=
+  match stored with Some m => no_opt (m_answer m) && no_opt (m_ns m) && no_opt (m_extra m) | None => true end.
+
 Definition spec15 (c : case) : bool :=
   match c with
   | CRun xs ws scripts prog qs => forallb (spec_query ws scripts) qs
   | CFun op arg m out aux => spec_fun op m out aux
+  | CLazy xs ws scripts prog steps =>
+    (* every query as in CRun; and what the cache holds never has an OPT *)
+    forallb (fun st => match st with
+                       | LQ o stored => spec_query ws scripts o && stored_ok stored
+                       | LExpire => true
+                       | LPair a b stored =>
+                         spec_query ws scripts a && spec_query ws scripts b && stored_ok stored
+                       end) steps
   | CNet xs ws scripts prog ns =>
     forallb (fun o => match o with
                       | NObs tr q (Some r) rlen =>
@@ -533,6 +614,13 @@ Definition nontrivial15 (c : case) : bool :=
                          end) qs
   | CFun op arg m out aux => negb (no_opt (all_rrs m))
   | CNet xs ws scripts prog ns => false
+  | CLazy xs ws scripts prog steps =>
+    (* an overlapping pair of stale hits by clients with OPT *)
+    existsb (fun st => match st with
+                       | LPair (QObs qa _ _ _ (OAnswer _) (Some _) _) (QObs qb _ _ sb (OAnswer _) (Some _) _) (Some _) =>
+                         match client_opt qa, client_opt qb, sb with Some _, Some _, [] => true | _, _, _ => false end
+                       | _ => false
+                       end) steps
   | CCopy q0 pre on_copy es_resp es_q ttl m2 before orig copy =>
     match before with CObs _ _ _ (Some _) _ => (0 <? length es_resp)%nat | _ => false end
   end.
